@@ -89,12 +89,16 @@ fn hexval(c: u8) -> Option<u8> {
 }
 
 /// Separator classes used by the model.
+/// "separated by any whitespace": the Unicode White_Space characters (listed explicitly).
 pub fn is_separator(c: char) -> bool {
-    matches!(c, ' ' | '\t' | '\n' | '\r' | '\x0c')
+    matches!(
+        c,
+        '\t' | '\n' | '\x0b' | '\x0c' | '\r' | ' ' | '\u{85}' | '\u{a0}' | '\u{1680}' | '\u{2000}'..='\u{200a}' | '\u{2028}' | '\u{2029}' | '\u{202f}' | '\u{205f}' | '\u{3000}'
+    )
 }
-/// whitespace for some definitions only: left open
-pub fn is_disputed_separator(c: char) -> bool {
-    !is_separator(c) && (c == '\x0b' || c.is_whitespace())
+/// (formerly: whitespace for some definitions only was left open; the statement says "any whitespace")
+pub fn is_disputed_separator(_c: char) -> bool {
+    false
 }
 
 pub fn classify(word: &str) -> Word {
